@@ -140,6 +140,51 @@ def run(tier, seed):
                 cases.append((tname, m, kind))
         for _ in range(nvals // 4):
             cases.append((tname, gen.rb(rng, rng.randrange(0, 120)), 'random'))
+    # ---- boundary sizes of every list the wire protocol carries (round trip on the implementation; too long for the
+    #      per-case model comparison)
+    from ipaddress import IPv6Address
+    from skepticoin.networking import messages as M
+    for nel in (999, 1000, 1001, 1500, 2049):
+        big = [('peers', M.PeersMessage([M.Peer(7, IPv6Address('::FFFF:10.%d.%d.%d' % (i >> 16 & 255, i >> 8 & 255, i & 255)), 2412) for i in range(nel)])),
+               ('inventory', M.InventoryMessage([M.InventoryItem(M.DATA_BLOCK, i.to_bytes(32, 'big')) for i in range(nel)])),
+               ('get-blocks', M.GetBlocksMessage([i.to_bytes(32, 'big') for i in range(nel)], b'\x09' * 32))]
+        for nm, msg in big:
+            try:
+                bs = msg.serialize()
+                back = M.Message.stream_deserialize(BytesIO(bs))
+                same = render.r_msg(back) == render.r_msg(msg) and back.serialize() == bs
+            except Exception as e:
+                same = False
+            ck.case(('big', nm, nel), kind='wire-list/%s/%d' % (nm, nel))
+            if not same:
+                ck.violation('roundtrip', 'a %s message with %d elements does not survive encode-then-decode' % (nm, nel),
+                             {'type': 'msg', 'origin': 'big-list', 'message': nm, 'elements': nel})
+    # ---- identity follows content: the id of an in-memory object is the hash of what it encodes to NOW, also after the
+    #      id was read once and the object was altered (signatures filled in, an output appended, reward data rolled)
+    from skepticoin.datatypes import Output
+    from skepticoin.signing import SECP256k1PublicKey, SECP256k1Signature
+    for k in range(20 if tier == 'quick' else 200):
+        t = gen.g_tx(rng, nin=rng.choice([1, 2]), nout=rng.choice([1, 2]))
+        ok0 = t.hash() == sha256d(t.serialize())
+        repr(t)
+        step = rng.choice(['append-output', 'rebind-outputs', 'replace-signature', 'change-value'])
+        try:
+            if step == 'append-output':
+                t.outputs.append(Output(5, SECP256k1PublicKey(gen.rb(rng, 64))))
+            elif step == 'rebind-outputs':
+                t.outputs = [Output(6, SECP256k1PublicKey(gen.rb(rng, 64)))]
+            elif step == 'replace-signature':
+                t.inputs[0].signature = SECP256k1Signature(gen.rb(rng, 64))
+            else:
+                t.outputs[0].value = t.outputs[0].value + 1
+            ok1 = t.hash() == sha256d(t.serialize())
+        except Exception as e:
+            ok0, ok1 = True, True          # an object that refuses the alteration is fine
+        ck.case(('identity-after', k), kind='id-after-' + step)
+        if not (ok0 and ok1):
+            ck.violation('id-not-hash-of-current-encoding', 'a transaction object whose id was read once and that was then '
+                         'altered in place (%s) reports an id that is not the double SHA-256 of its encoding' % step,
+                         {'type': 'tx', 'origin': 'identity-after-' + step})
     # exhaustive short VLQ strings
     maxlen = 2 if tier == 'quick' else 3
     import itertools
